@@ -72,7 +72,7 @@ struct FileSpec {
 #[derive(Clone, Copy, PartialEq, Eq, Debug)]
 enum TreeKind { Stable, Perm, Mutate, NonUtf8 }
 
-struct Tree { root: PathBuf, files: Vec<FileSpec>, locked_dirs: Vec<Vec<u8>>, kind: TreeKind }
+struct Tree { root: PathBuf, files: Vec<FileSpec>, locked_dirs: Vec<Vec<u8>> }
 
 fn gen_content(rng: &mut Rng, nrules: usize) -> Vec<u8> {
     if rng.chance(3, 20) { return vec![]; }
@@ -154,7 +154,7 @@ fn gen_tree(rng: &mut Rng, root: &Path, kind: TreeKind, nrules: usize, cap: usiz
     for d in &locked_dirs {
         fs::set_permissions(root.join(OsString::from_vec(d.clone())), fs::Permissions::from_mode(0o000)).unwrap();
     }
-    Tree { root: root.into(), files, locked_dirs, kind }
+    Tree { root: root.into(), files, locked_dirs }
 }
 
 fn unlock_tree(t: &Tree) {
@@ -330,6 +330,15 @@ fn run(args: &[String]) -> i32 {
     let mut samples: Vec<String> = vec![];
     let limit = Duration::from_secs(60);
     let is_root = unsafe { libc::geteuid() } == 0;
+    // entries "unreadable for the scanning user" need a user for whom chmod 000 means something:
+    // as root, yr is started as uid 65534; if that is not possible here the stream is skipped
+    let can_restrict = !is_root || {
+        let mut c = Command::new(&yr);
+        c.arg("help").env("HOME", &work).stdin(Stdio::null()).stdout(Stdio::null()).stderr(Stdio::null());
+        unsafe { c.pre_exec(|| { libc::setgroups(0, std::ptr::null()); if libc::setgid(65534) != 0 || libc::setuid(65534) != 0 { return Err(std::io::Error::last_os_error()); } Ok(()) }); }
+        matches!(c.status(), Ok(st) if st.success())
+    };
+    if !can_restrict { stats.inc("perm_stream_skipped_cannot_drop_privileges"); }
 
     // ---------------- abort probe (first: it is the "corpus" of this check)
     let mut probe_hung = vec![];
@@ -376,7 +385,7 @@ fn run(args: &[String]) -> i32 {
         tree_idx += 1;
         let kind = match rng.below(20) {
             0..=11 => TreeKind::Stable,
-            12..=14 => TreeKind::Perm,
+            12..=14 => if can_restrict { TreeKind::Perm } else { TreeKind::Stable },
             15..=17 => TreeKind::Mutate,
             _ => TreeKind::NonUtf8,
         };
